@@ -5,7 +5,7 @@ Local Schedule Object
 """
 
 import calendar
-from time import mktime as _mktime
+from time import mktime as _mktime, localtime as _localtime
 
 from ..debugging import bacpypes_debugging, ModuleLogger
 
@@ -232,7 +232,31 @@ def datetime_to_time(date, time):
         time[0], time[1], time[2],
         0, 0, -1,
         )
-    return _mktime(time_tuple) + (time[3] / 100.0)
+    seconds = _mktime(time_tuple)
+    hundredths = time[3] / 100.0
+
+    # a wall clock time that is skipped when the clocks are put forward does
+    # not exist on that day and mktime() carries it along into the new time,
+    # but it has come the moment the clocks change
+    if _wall_clock_shows(seconds - 1, time_tuple):
+        hundredths = 0.0
+        low = seconds - 3600
+        while _wall_clock_shows(low, time_tuple):
+            low -= 3600
+        while seconds - low > 1:
+            middle = (low + seconds) // 2
+            if _wall_clock_shows(middle, time_tuple):
+                seconds = middle
+            else:
+                low = middle
+
+    return seconds + hundredths
+
+def _wall_clock_shows(seconds, time_tuple):
+    """Return True if the local wall clock shows at least the date and time
+    of the tuple at that time in seconds since the epoch, the hour of the
+    tuple may be 24."""
+    return tuple(_localtime(seconds)[:6]) >= tuple(time_tuple[:6])
 
 #
 #   LocalScheduleObject
